@@ -252,6 +252,7 @@ func (l *LedgerProvider) ReleaseZlibWriter(w *zlib.Writer) {
 // stack per object kind. Unlike sync.Pool, which object Acquire returns is a function of the
 // history alone, so reuse-dependent verdicts are replayable.
 type LIFOProvider struct {
+	fresh int
 	mu sync.Mutex
 	gw []*gzip.Writer
 	gr []*gzip.Reader
@@ -285,6 +286,12 @@ func (p *LIFOProvider) AcquireGzipReader() *gzip.Reader {
 		r := p.gr[n-1]
 		p.gr = p.gr[:n-1]
 		return r
+	}
+	p.fresh++
+	if p.fresh%2 == 0 {
+		// a never-used reader, as a sync.Pool{New: func() interface{} { return new(gzip.Reader) }} hands
+		// out: legal, the framework must Reset it before it reads
+		return new(gzip.Reader)
 	}
 	r, err := gzip.NewReader(&tripReader{})
 	if err != nil {
